@@ -64,6 +64,14 @@ func (e *c08Env) withPayload(f func(p *goatxtypes.ExecutionPayload) bool) [][]by
 	return e.resign(p, e.prop, e.h.ch.W.ValAddrStr(e.prop))
 }
 
+// withField changes one field of the honest payload and keeps the block hash: the execution client, which rebuilds the
+// header from the fields it is given, must find the hash wrong - provided every field reaches it unchanged.
+func (e *c08Env) withField(f func(p *goatxtypes.ExecutionPayload)) [][]byte {
+	p := clonePayload(e.payload)
+	f(p)
+	return e.resign(p, e.prop, e.h.ch.W.ValAddrStr(e.prop))
+}
+
 func nsys(p *goatxtypes.ExecutionPayload) int {
 	if len(p.ExtraData) == 0 {
 		return 0
@@ -324,6 +332,39 @@ func c08Mutants() []c08Mutant {
 		{name: "timestamp 2^64-1", build: func(e *c08Env) [][]byte {
 			return e.withPayload(func(p *goatxtypes.ExecutionPayload) bool { p.Timestamp = ^uint64(0); return true })
 		}},
+		{name: "excess blob gas changed under the same block hash", build: func(e *c08Env) [][]byte {
+			return e.withField(func(p *goatxtypes.ExecutionPayload) { p.ExcessBlobGas += 131072 })
+		}},
+		{name: "excess blob gas set to the blob gas used under the same block hash", build: func(e *c08Env) [][]byte {
+			if e.payload.ExcessBlobGas == e.payload.BlobGasUsed {
+				return nil
+			}
+			return e.withField(func(p *goatxtypes.ExecutionPayload) { p.ExcessBlobGas = p.BlobGasUsed })
+		}},
+		{name: "blob gas used changed under the same block hash", build: func(e *c08Env) [][]byte {
+			return e.withField(func(p *goatxtypes.ExecutionPayload) { p.BlobGasUsed += 131072 })
+		}},
+		{name: "gas limit changed under the same block hash", build: func(e *c08Env) [][]byte {
+			return e.withField(func(p *goatxtypes.ExecutionPayload) { p.GasLimit++ })
+		}},
+		{name: "gas used changed under the same block hash", build: func(e *c08Env) [][]byte {
+			return e.withField(func(p *goatxtypes.ExecutionPayload) { p.GasUsed += 21000 })
+		}},
+		{name: "state root changed under the same block hash", build: func(e *c08Env) [][]byte {
+			return e.withField(func(p *goatxtypes.ExecutionPayload) {
+				p.StateRoot = append([]byte{}, p.StateRoot...)
+				p.StateRoot[7] ^= 1
+			})
+		}},
+		{name: "receipts root changed under the same block hash", build: func(e *c08Env) [][]byte {
+			return e.withField(func(p *goatxtypes.ExecutionPayload) {
+				p.ReceiptsRoot = append([]byte{}, p.ReceiptsRoot...)
+				p.ReceiptsRoot[3] ^= 1
+			})
+		}},
+		{name: "base fee changed under the same block hash", build: func(e *c08Env) [][]byte {
+			return e.withField(func(p *goatxtypes.ExecutionPayload) { p.BaseFeePerGas = p.BaseFeePerGas.AddRaw(1) })
+		}},
 		{name: "nil payload", build: func(e *c08Env) [][]byte {
 			return e.resign(nil, e.prop, e.h.ch.W.ValAddrStr(e.prop))
 		}},
@@ -408,6 +449,9 @@ func c08History(c *vc.Ctx, idx int) {
 	defer h.close()
 	for _, n := range h.ch.Nodes {
 		n.EL.Jitter = 4 * time.Millisecond
+		if idx%3 == 1 {
+			n.EL.ExcessBlob = 393216 * uint64(1+idx%4) // a non-zero excess blob gas in every honest payload (blob gas used stays 0)
+		}
 	}
 	h.crashFn = func(cr *world.ErrCrash) {
 		c.Violation("block processing failed on an honest proposal: "+errClass(cr.Err.Error()), cr.Error(), h.replay())
